@@ -325,6 +325,10 @@ def c15(tier, seed):
     evs = c.drive("default", "api", steps=60 if thorough else 20, walks=3 if thorough else 1)
     evs += renumber(c.drive("aes-detect-off", "api", family="AES", mix_arms=1, steps=80 if thorough else 30, walks=4 if thorough else 1), 10_000_000)
     c.validate(evs, API_MOD, API_CFG, "hist", what="history independence")
+    # process-global state: the same observations in differently ordered processes must agree
+    for cfg_id in ("default", "dev-soft", "dev-compact"):
+        traces = [(f"{cfg_id}#{perm}", c.drive(cfg_id, "order", perm=perm, keys=3 if thorough else 2)) for perm in (0, 1, 7 + seed, 99 + seed)]
+        c.validate(merge_by_run(traces), API_MOD, API_CFG, f"order-{cfg_id}", what=f"order independence across processes ({cfg_id})", shards=1)
     # fresh processes: the first AES use races on the detection cache
     nproc = 60 if thorough else 10
     tevs = []
@@ -349,12 +353,23 @@ def c16(tier, seed):
     evs = []
     plan = [("feat-all", {}, None), ("soft-z", {}, "AES,Kuznyechik"), ("compact-z", {}, "AES,Kuznyechik"),
             ("aes-detect-off-z", {"force_off": 1}, "AES")]
+    from . import shadow
+    for sid, fam in (("aes-fix32-z", "AES"), ("aes-armv8-z", "AES"), ("kuz-neon-z", "Kuznyechik")):
+        shadow.build_shadow(sid)
+        plan.append((sid, {}, fam))
     for i, (cfg_id, extra, fam) in enumerate(plan):
         kw = dict(keys=6 if thorough else 3)
         if fam:
             kw["family"] = fam
         kw.update(extra)
         evs += renumber(c.drive(cfg_id, "zeroize", **kw), i * 10_000_000)
+    # Threefish without its default `cipher` feature (inherent API only) but with zeroize
+    exe = build.build_tfz()
+    tf = os.path.join(c.work, "tfz.ndjson")
+    p = run([exe, "--out", tf, "--seed", str(seed)], check=False, timeout=300)
+    tfe = read_ndjson(tf) if p.returncode == 0 else [{"ev": "abort", "rc": p.returncode, "cfg": "tfz"}]
+    c.configs.add("threefish-nocipher-z")
+    evs += renumber(tfe, 90 * 10_000_000)
     # control: without the feature the key material must survive the drop (the probe sees it)
     evs += c.drive("feat-min", "zeroize", keys=3, family="AES,DES,Kuznyechik,Blowfish,Threefish,RC5")
     c.validate(evs, API_MOD, API_CFG, "zero", what="erasure on drop", shards=14)
@@ -407,6 +422,11 @@ def c20(tier, seed):
         traces.append((cfg_id, c.drive(cfg_id, "wblock", may_die=True, minlen=32, maxlen=80 if not thorough else 200, extra=3, keys=2,
                                        big=2 if not thorough else 6)))
     c.validate(merge_by_run(traces), API_MOD, API_CFG, "tot-wblock", what="dev vs release, wblock")
+    for pair, fams in ((("dev-soft", "release-soft"), "AES,Kuznyechik,Serpent"), (("dev-compact", "release-compact"), "AES,Kuznyechik")):
+        traces = [(cfg_id, c.drive(cfg_id, "conf", may_die=True, family=fams, keys=6 if thorough else 3, blocks=3)) for cfg_id in pair]
+        c.validate(merge_by_run(traces), API_MOD, API_CFG, f"tot-{pair[0]}", what=f"dev vs release, {pair[0]}")
+        traces = [(cfg_id, c.drive(cfg_id, "batch", may_die=True, family=fams, mult=2, random=1)) for cfg_id in pair]
+        c.validate(merge_by_run(traces), API_MOD, API_CFG, f"totb-{pair[0]}", what=f"dev vs release batches, {pair[0]}")
     sh = shadow_cfgs(("AES", "Kuznyechik"))
     for fam, cfgs in (("AES", ["aes-soft", "aes-soft-compact"] + [s for s, f in sh if f == "AES"]),
                       ("Kuznyechik", ["kuz-soft", "kuz-compact"] + [s for s, f in sh if f == "Kuznyechik"]), ("Serpent", ["serpent-loop"])):
